@@ -205,4 +205,57 @@ example : statusOf (handleLeaveIntent demo "b" 5 true 0).1 "b" = none ∧
     (handleLeaveIntent demo "b" 5 true 0).2.events = [(.leave, "b"), (.reap, "b")] := by decide
 example : BookInv (handleLeaveIntent demo "b" 5 true 0).1 := inv_handleLeaveIntent _ _ _ _ _ demo_inv
 
+/-! ### the property over whole histories (no hypothesis left)
+
+Every sentence of the property, quantified over EVERY history from a freshly created node (any
+name, any configuration, any sequence of the 13 inputs of the model): the invariant is discharged
+by `C15_inv_run`, so nothing is assumed about the state. -/
+
+/-- **At every point of every membership history** the failed / left counts the node reports equal the
+numbers of members it lists as failed / left, and member names are unique. -/
+theorem C15_history_consistent (name : Name) (cfg : Config) (ops : List Op) :
+    statsFailed (run (Node.init name cfg) ops) = countStatus (run (Node.init name cfg) ops) .failed ∧
+    statsLeft (run (Node.init name cfg) ops) = countStatus (run (Node.init name cfg) ops) .left ∧
+    ((run (Node.init name cfg) ops).members.map (·.1)).Nodup :=
+  have h := C15_inv_run _ ops (C15_inv_init name cfg)
+  ⟨(C15_stats _ h).1, (C15_stats _ h).2, C15_names_unique _ h⟩
+
+/-- … and at every PREFIX of the history ("at every point"). -/
+theorem C15_history_consistent_prefix (name : Name) (cfg : Config) (ops : List Op) (k : Nat) :
+    statsFailed (run (Node.init name cfg) (ops.take k)) = countStatus (run (Node.init name cfg) (ops.take k)) .failed ∧
+    statsLeft (run (Node.init name cfg) (ops.take k)) = countStatus (run (Node.init name cfg) (ops.take k)) .left ∧
+    ((run (Node.init name cfg) (ops.take k)).members.map (·.1)).Nodup :=
+  C15_history_consistent name cfg (ops.take k)
+
+/-- **Reaping is exact after every history**, for every `now` and every per-member override. -/
+theorem C15_history_reap_exact (name : Name) (cfg : Config) (ops : List Op) (now : Nat) (ov : Name → Nat → Nat) :
+    let n := run (Node.init name cfg) ops
+    (∀ x, alookup (reap n now ov).1.members x = if Due n now ov x then none else alookup n.members x) ∧
+    (∀ e ∈ (reap n now ov).2.events, e.1 = EvKind.reap) ∧
+    ((reap n now ov).2.events.map (·.2)).Nodup ∧
+    (∀ x, x ∈ (reap n now ov).2.events.map (·.2) ↔ Due n now ov x) :=
+  C15_reap_exact _ now ov (C15_inv_run _ ops (C15_inv_init name cfg))
+
+/-- **A pruned member disappears**, through both entry points (gossip `leaveMsg … prune`, local
+`forceLeave … prune`), after every history.  For the local call the claim time is the clock. -/
+theorem C15_prune_disappears_gossip (n : Node) (x : Name) (lt wall t : Nat) (h : BookInv n)
+    (hk : ltimeOf n x = some t) (hnew : t < lt) (hself : ¬ (x = n.name ∧ n.life = .alive)) :
+    statusOf (step n (.leaveMsg x lt true wall)).1 x = none ∧
+    (EvKind.reap, x) ∈ (step n (.leaveMsg x lt true wall)).2.events :=
+  C15_prune_disappears n x lt wall t h hk hnew hself
+
+example : statusOf (step demo (.leaveMsg "b" 9 true 0)).1 "b" = none := by decide
+
+/-- An alive or leaving member is never touched by the reaper (it is on neither list): after every
+history, for every reaper time and override.  (Seeded change C01-a breaks exactly this: a member
+that went failed → left → alive stayed on a reaper list and was erased while alive.) -/
+theorem C15_reaper_spares_unlisted (n : Node) (now : Nat) (ov : Name → Nat → Nat) (h : BookInv n) (x : Name)
+    (hs : statusOf n x = some .alive ∨ statusOf n x = some .leaving) :
+    alookup (reap n now ov).1.members x = alookup n.members x := by
+  have := (C15_reap_exact n now ov h).1 x
+  have hd : ¬ Due n now ov x := by
+    unfold Due
+    rcases hs with hs | hs <;> simp [hs]
+  rw [this, if_neg hd]
+
 end SerfProofs.C15
